@@ -261,9 +261,9 @@ pub fn run(prop: &str) {
         }
         rep.sample(json!({"part":"long session","script":"40 requests in both directions under one session, every 5th request's datagram lost (retransmission), peer restarted after a quarter of the requests (re-key with requests in flight; the new session's counters pass the old ones), nonce randomness forced constant"}));
     }
-    // C03 / C13 / C04 are also decided against a malicious peer / on-path attacker
-    if prop == "C03" || prop == "C13" || prop == "C04" {
-        let ak: u32 = std::env::var("VERIF_AK").ok().and_then(|v| v.parse().ok()).unwrap_or(if thorough { 5 } else if prop == "C04" { 2 } else { 3 });
+    // C03 / C13 / C04 / C19 are also decided against a malicious peer / on-path attacker
+    if prop == "C03" || prop == "C13" || prop == "C04" || prop == "C19" {
+        let ak: u32 = std::env::var("VERIF_AK").ok().and_then(|v| v.parse().ok()).unwrap_or(if thorough { 5 } else if prop == "C04" { 2 } else if prop == "C19" { 4 } else { 3 });
         let (st, vio, samples) = crate::attack::explore(prop, thorough, mc::budget(thorough, 60.0, 0.5), ak);
         rep.set("attacker_worlds_states", st.states);
         rep.set("attacker_worlds_executions", st.executions);
